@@ -12,4 +12,14 @@ PROPS = {
                      "strings are modelled as rune lists; inputs are valid UTF-8",
                      "bufio.Scanner's 64 KiB token limit is not part of the model (F-C19-1 is the recorded difference)"],
     ),
+    "C14": dict(
+        props="props/C14.v",
+        streams=[dict(name="c14", search_n=0)],
+        mismatch_is_violation=False,  # the error class is not pinned by the property; the Go oracle decides
+        modelled="method/parse.go Parse (Sig.v: role loop, arity/result validation, error order); the ParseOpts literal of each "
+                 "call site (converter method, extend, map|FUNC, default, struct method) is regenerated from the source (Extracted.v)",
+        assumptions=["a parameter is abstracted to the three tests Parse applies (types.Identical with the converter, name = update ARG, context match)",
+                     "variadic parameters are invisible to method.Parse (F-C14-1/-2: accepted but mis-generated; end-to-end replay pending)",
+                     "accessibility (xtype.Accessible) and isError are taken as boolean inputs"],
+    ),
 }
